@@ -158,6 +158,12 @@ func record(id int, src, x string, widths []int) (rec caseRec, unsupported bool,
 			return
 		}
 		unsupported = unsupported || u != nil
+		if n := len(rec.Rf); n > 0 && rec.Rf[n-1].W < w && rec.Rf[n-1].Fr == r.Fr {
+			// Same output as at the next narrower width: every relation at w is implied by the
+			// relations at that width (the fixpoint and HTML relations are about the same strings,
+			// and a line wider than w is wider than the narrower width), so it is not recorded twice.
+			continue
+		}
 		if r.Hr, p = html(r.Fr); p != nil {
 			return
 		}
